@@ -72,6 +72,9 @@ class ConCtx(CtxBase):
     def select(self, lst, i):
         return lst[i]
 
+    def fmt(self, f, *vals):
+        return f % tuple(vals)
+
     def alternatives(self, x):
         return [(True, x)]
 
